@@ -247,6 +247,15 @@ def s2_small(tier):
                    [{'c': 'AtMostKInARow', 'k': 2, 'factor': 'A', 'level': None}]):
             out.append(spec([A], cross(['A'], ['A'], cs), 'S2'))
             out.append(spec([A], cross(['A'], ['A'], cs + [{'c': 'MinimumTrials', 'k': size + 2}]), 'S2'))
+    # a hidden weight factor (weighted, outside the crossing) under Merge / Repeat / MultiCrossBlock
+    Aw = basic('A', 2, [2, 1])
+    Bu = basic('B', 2)
+    inner = cross(['A', 'B'], ['B'], [])
+    out.append(spec([Aw, Bu], {'op': 'merge', 'blocks': [inner], 'constraints': [], 'mode': 'repeat'}, 'S2'))
+    out.append(spec([Aw, Bu], {'op': 'merge', 'blocks': [inner], 'constraints': [{'c': 'MinimumTrials', 'k': 4}], 'mode': 'repeat'}, 'S2'))
+    out.append(spec([Aw, Bu], {'op': 'repeat', 'block': inner, 'constraints': [{'c': 'MinimumTrials', 'k': 4}]}, 'S2'))
+    out.append(spec([Aw, Bu], {'op': 'merge', 'blocks': [inner, cross(['A', 'B'], ['B'], [{'c': 'AtMostKInARow', 'k': 1, 'factor': 'A', 'level': 'a1'}])],
+                               'constraints': [], 'mode': 'weight'}, 'S2'))
     # two weighted crossed factors
     A = basic('A', 2, [2, 1])
     B = basic('B', 2, [1, 2])
